@@ -100,3 +100,75 @@ theorem inv_refs (c : Cfg) (h : inv c = true) :
   exact h.1.1.2
 
 end AslProofs.ThreadEnd
+
+namespace AslProofs.ThreadCopies
+open AslModel.ThreadCopies
+
+structure CInv (c : Cfg) : Prop where
+  nb : c.bad = false
+  rc : c.refs = c.objs + (if c.worker < 2 then 1 else 0)
+  al : c.stateAlive = decide (0 < c.refs)
+  fr : c.frees = (if c.stateAlive then 0 else 1)
+  fl : c.finished = decide (1 ≤ c.worker)
+  wk : c.worker ≤ 2
+
+theorem init_inv : CInv init := ⟨rfl, rfl, rfl, rfl, rfl, by decide⟩
+
+theorem unref_inv (c : Cfg) (o w : Nat) (hb : c.bad = false) (hr : c.refs = o + w + 1)
+    (hal : c.stateAlive = true) (hf : c.frees = 0) :
+    (unref c).bad = false ∧ (unref c).refs = o + w ∧ (unref c).stateAlive = decide (0 < o + w) ∧
+    (unref c).frees = (if (unref c).stateAlive then 0 else 1) ∧ (unref c).finished = c.finished ∧
+    (unref c).objs = c.objs ∧ (unref c).worker = c.worker := by
+  unfold unref
+  have h0 : ¬ ((!c.stateAlive || c.refs == 0) = true) := by simp [hal]; omega
+  rw [if_neg h0]
+  by_cases h1 : c.refs = 1
+  · have : (c.refs == 1) = true := by simp [h1]
+    rw [if_pos this]
+    have : o + w = 0 := by omega
+    simp [hb, this, hf]
+  · have : ¬ ((c.refs == 1) = true) := by simp [h1]
+    rw [if_neg this]
+    have hp : 0 < o + w := by omega
+    simp [hb, hal, hf, hp]; omega
+
+theorem step_inv (c : Cfg) (a : Act) (h : CInv c) (he : enabled c a = true) : CInv (step c a) := by
+  obtain ⟨nb, rc, al, fr, fl, wk⟩ := h
+  cases a with
+  | copy =>
+    simp only [enabled, Bool.and_eq_true, decide_eq_true_eq] at he
+    have hal : c.stateAlive = true := by rw [al]; simp; omega
+    simp only [step, hal, if_true]
+    refine ⟨nb, by simp only []; omega, by show true = decide (0 < c.refs + 1); simp, by simpa [hal] using fr, fl, wk⟩
+  | finish =>
+    simp only [enabled, Bool.and_eq_true, beq_iff_eq] at he
+    have hal : c.stateAlive = true := by rw [al]; simp; rw [rc, he.1]; simp
+    simp only [step, hal, if_true]
+    refine ⟨nb, by show c.refs = c.objs + _; rw [rc, he.1]; simp, by show true = decide (0 < c.refs); rw [← al]; exact hal.symm, by simpa [hal] using fr, by simp, by simp⟩
+  | drop =>
+    simp only [enabled, Bool.and_eq_true, decide_eq_true_eq] at he
+    have hal : c.stateAlive = true := by rw [al]; simp; omega
+    have hf0 : c.frees = 0 := by rw [fr, hal]; rfl
+    obtain ⟨a1, a2, a3, a4, a5, a6, a7⟩ := unref_inv { c with objs := c.objs - 1 } (c.objs - 1) (if c.worker < 2 then 1 else 0) nb
+      (by show c.refs = _; omega) hal hf0
+    simp only [step]
+    refine ⟨a1, by rw [a2, a6, a7], by rw [a3, a2], a4, by rw [a5, a7]; exact fl, by rw [a7]; exact wk⟩
+  | release =>
+    simp only [enabled, Bool.and_eq_true, beq_iff_eq] at he
+    have hal : c.stateAlive = true := by rw [al]; simp; rw [rc, he.1]; simp
+    have hf0 : c.frees = 0 := by rw [fr, hal]; rfl
+    obtain ⟨a1, a2, a3, a4, a5, a6, a7⟩ := unref_inv { c with worker := 2 } c.objs 0 nb
+      (by show c.refs = _; rw [rc, he.1]; simp) hal hf0
+    simp only [step]
+    refine ⟨a1, by rw [a2, a6, a7]; simp, by rw [a3, a2], a4, by rw [a5, a7]; simp [fl, he.1], by rw [a7]; exact Nat.le_refl 2⟩
+
+theorem run_inv (r : List Act) (c : Cfg) (h : CInv c) : CInv (run c r) := by
+  induction r generalizing c with
+  | nil => exact h
+  | cons a r ih =>
+    unfold run
+    by_cases he : enabled c a = true
+    · simp only [he, if_true]; exact ih _ (step_inv c a h he)
+    · simp only [he]; exact ih c h
+
+end AslProofs.ThreadCopies
